@@ -34,7 +34,7 @@ def _position(dtype, dx, cell, off, origin=None):
     return x
 
 
-def case_lattice(dim, kernel, dtype, dx, base_cells, n_markers=None, shift="default"):
+def case_lattice(dim, kernel, dtype, dx, base_cells, n_markers=None, shift="default", edge=None):
     real_t = np.dtype(dtype).type
     shape = lagcomm.SHAPES[dim]
     # construction history: a communicator of the OTHER kernel type and another spacing is built first
@@ -46,6 +46,10 @@ def case_lattice(dim, kernel, dtype, dx, base_cells, n_markers=None, shift="defa
     n = comm.n
     eps = float(np.finfo(real_t).eps)
     offs = offsets_alphabet(real_t)
+    if edge == "low":
+        # markers EXACTLY two cells inside the low domain faces and up to half a cell further in (x in [2 dx, 2.5 dx)):
+        # base cell 1 with the upper half of the offsets; their nearest-cell index is 1, the lowest admissible one
+        offs = [o for o in offs if o[1] >= 0.5 and not (o[1] == 0.5 and o[2] < 0)]
     fails = []
     # axis k of a marker position: 0 = x (last array axis)
     ncell = [shape[dim - 1 - k] for k in range(dim)]
@@ -190,6 +194,12 @@ def run(r) -> None:
             for dt in ("float64", "float32"):
                 for sh in ("zero", "far"):
                     cases.append(dict(dim=dim, kernel=kernel, dtype=dt, dx=lagcomm.DXS[1], base_cells=mid if dim == 2 else [m[:1] for m in mid], shift=sh))
+    # the lowest admissible positions (exactly two cells inside the low faces), every axis
+    for dim in (2, 3):
+        for kernel in ("cosine", "peskin"):
+            for dt in ("float64", "float32"):
+                for dx in lagcomm.DXS[:2]:
+                    cases.append(dict(dim=dim, kernel=kernel, dtype=dt, dx=dx, base_cells=[[1]] * dim, edge="low"))
     # spacings larger than one
     for dim in (2, 3):
         shape = lagcomm.SHAPES[dim]
@@ -210,7 +220,7 @@ def run(r) -> None:
     r.extra["worst_deviation_over_tolerance"] = agg
     r.extra["positions_where_floor_index_slipped"] = slips
     r.bounds = {"offsets_per_axis": [f"{o[0]}:{o[1]}{o[2]:+d}ulp" for o in offsets_alphabet(np.float64)], "crossed_over_all_axes": True,
-                "base_cells": "{n/2, 2, 3, n-3} per axis" + (" (3-D: at most one axis away from n/2)" if quick else " (full cross)"),
+                "base_cells": "{n/2, 2, 3, n-3} per axis; cell 1 with offsets >= 1/2 (exactly two cells inside the low faces)" + (" (3-D: at most one axis away from n/2)" if quick else " (full cross)"),
                 "dx": lagcomm.DXS + lagcomm.LARGE_DXS, "grid_origins": lagcomm.SHIFTS, "shapes": lagcomm.SHAPES, "batch": lagcomm.N_BATCH, "marker_counts": [1, lagcomm.N_BATCH, 512, 1500]}
     r.extra["rule"] = "one state per marker position of the offset lattice (all axes crossed); every position goes through the real support/weights/interpolation closures"
     r.assumptions = ["numba closures compiled with fastmath: inputs contain no NaN/inf; tolerances 4 eps (4 + |x|/dx) relative to (1/dx)^d"]
